@@ -293,6 +293,7 @@ Inductive origin :=
 Record vtrace := mkTrace {
   t_key : bytes;        (* secret the validating signer was constructed with (whole byte string) *)
   t_key_buf : bytes;    (* what the caller's slice holds when the validation runs (the caller may have overwritten it) *)
+  t_empty : bool;       (* the string is the empty string (for Authenticate: no token, the guest) *)
   t_now : Z;
   t_aud : bytes;        (* payload type the validator expects *)
   t_app : bytes;        (* application of the IAppTokens *)
@@ -300,7 +301,8 @@ Record vtrace := mkTrace {
   t_origin : origin;
   t_tok : obs;          (* ITokens.ValidateToken *)
   t_apptok : obs;       (* IAppTokens.ValidateToken *)
-  t_auth : option N     (* IAuthenticator.Authenticate: 0 accepted, 1 error, 2 panic; None = not run *)
+  t_auth : option N     (* IAuthenticator.Authenticate: 0 accepted with the principals of a token, 1 error, 2 panic,
+                           3 accepted as sys.Guest; None = not run *)
 }.
 
 Definition ekind_eqb (a b : ekind) : bool :=
@@ -322,6 +324,8 @@ Definition out_obs_eqb (o : outcome) (b : obs) : bool :=
   end.
 
 Definition auth_code (o : outcome) : N := match o with Ok _ _ => 0 | Err _ => 1 | Panic => 2 end%N.
+(* Authenticate: the empty string is "no token" (guest); every other string goes to IAppTokens.ValidateToken as it is *)
+Definition auth_model (empty : bool) (o : outcome) : N := if empty then 3%N else auth_code o.
 
 (* agrees: the model reproduces every recorded result *)
 (* NewJWTSigner keeps the caller's slice unless it copies it: the secret the signer works with is
@@ -334,7 +338,7 @@ Definition agrees_v (t : vtrace) : bool :=
   && out_obs_eqb (validate_app (working_key t) (t_aud t) (t_app t) (t_now t) (t_view t)) (t_apptok t)
   && match t_auth t with
      | None => true
-     | Some c => (c =? auth_code (validate_app (working_key t) (t_aud t) (t_app t) (t_now t) (t_view t)))%N
+     | Some c => (c =? auth_model (t_empty t) (validate_app (working_key t) (t_aud t) (t_app t) (t_now t) (t_view t)))%N
      end
   (* the integer fields of the payload in the claims of an unchanged issued token *)
   && match t_origin t, t_view t with
@@ -381,7 +385,10 @@ Definition satisfies_v (t : vtrace) : bool :=
   && obs_allowed true t (t_apptok t)
   && match t_auth t with
      | None => true
-     | Some c => negb (c =? 2)%N && (negb (c =? 0)%N || origin_allows true t)
+     | Some c =>
+         (* no panic; the principals of a token only for what an app-bound validation may accept;
+            the guest only for the empty string - never for any other string that is not a token *)
+         negb (c =? 2)%N && (negb (c =? 0)%N || origin_allows true t) && (negb (c =? 3)%N || t_empty t)
      end.
 
 (* ---- secrets: construction and CryptoHash256 of two signers side by side ---- *)
